@@ -325,7 +325,9 @@ def check_C14(tier, seed):
     docs = docfam.doc_instances(seqs, seed)
     multi = [copy.deepcopy(i) for i in insts if len(i["args"]) >= 2][: (150 if tier == "quick" else 1500)]
     for i in multi: i["args"] = {"zz_b": G.I(1), "zz_a": G.I(2), "zz_c": G.S("x")}; i["rawargs"] = True
-    insts = universe.renumber(insts + docs + multi)
+    # near-valid queries: most are rejected, many with several errors raised at different vertices (their order must be stable too)
+    mut = universe.mutated_universe(tier, seed + 800)
+    insts = universe.renumber(insts + docs + multi + mut)
     nproc = 3 if tier == "quick" else 8
     ip = os.path.join(wd, "inst.ndjson"); write_ndjson(ip, insts)
     rp = os.path.join(wd, "inst.rev.ndjson"); write_ndjson(rp, list(reversed(insts)))
